@@ -124,7 +124,7 @@ CHECKS = {
         design='DESIGN.md §3 C16'),
     'C17': dict(
         level='model_checking', technique='explicit-state BFS over attribute-removal / restoration / detachment histories with every rendering evaluated in every state; exhaustive reference product with a classifying reference model',
-        text='Histories over {unset a required attribute, restore it, detach / re-attach table and enum} are executed on real objects; in every state the .sql of every element and container must raise '
+        text='Histories over {unset a required attribute, restore it, set it to the empty string (a value, not a missing attribute), detach / re-attach table and enum} are executed on real objects; in every state the .sql of every element and container must raise '
              'AttributeMissingError exactly while something it renders lacks a named attribute. Every reference over two attached tables and an unattached column (sides 1-2, four kinds, inline or not, '
              'attached or not) is classified consistent / detached / mixed / composite-inline and the predicted exception class is required for .sql, .dbml, .table1, .table2; histories that move or detach '
              'a column after the reference was looked at, and attach/detach histories for get_refs (plain, abstract and aliased tables; the join table of a <> reference), complete it.',
